@@ -5,6 +5,8 @@ CONSTANTS
   MaxEdits = 2
   Queries = {"", "a", "b", "ab"}
   MaxReloads = 1
+  TailN = 0
+  BumpOnTrim = TRUE
   AllowOlder = TRUE
 SPECIFICATION Spec
 INVARIANTS PublishedIsFilter ShownIsFilter MergerCacheSound ChunkCacheSound ConvergenceStrict
